@@ -61,6 +61,39 @@ pub fn gen_poly(rng: &mut Rng, thorough: bool) -> PolyIn {
   // spread: avoid nearly coincident azimuths
   for k in 0..n { az[k] = 2.0 * PI * (k as f64 + 0.15 + 0.7 * rng.f01()) / n as f64; }
   let mut verts: Vec<(f64, f64)> = az.iter().map(|&a| { let r = if convex { rho } else { rho * (0.35 + 0.65 * rng.f01()) }; let d = dest(centre, r, a); (d.0 - 2.0 * PI * (d.0 / (2.0 * PI)).floor(), d.1) }).collect();
+  let mut class = class;
+  let mut convex = convex;
+  let mut centre = centre;
+  let mut rho = rho;
+  match rng.below(10) {
+    0 => {
+      // sliver: all vertices but one clustered at one end, the far one opposite (star-shaped w.r.t. the centre: azimuths
+      // are monotone and every gap is below pi); the list is rotated so that the far vertex sits anywhere in it
+      let back = 2.0 * PI * rng.f01();
+      let m = 3 + rng.below(6) as usize;
+      let mut v: Vec<(f64, f64)> = (0..m).map(|k| dest(centre, rho * (0.93 + 0.07 * rng.f01()), back + 0.25 * (k as f64 / m as f64 - 0.5))).collect();
+      v.push(dest(centre, rho, back + PI));
+      let r = rng.below(v.len() as u64) as usize;
+      v.rotate_left(r);
+      verts = v.into_iter().map(|d| (d.0 - 2.0 * PI * (d.0 / (2.0 * PI)).floor(), d.1)).collect();
+      class = "sliver"; convex = false;
+    }
+    1 => {
+      // grid-aligned: the four vertices of a HEALPix cell (shares longitudes bit for bit with cell corners of every depth)
+      // at most 5 levels above the query depth (keeps the answer small)
+      let dd = depth.saturating_sub(rng.below(6) as u8);
+      let l = get_or_create(dd);
+      let h = l.hash(centre.0, centre.1);
+      let c = l.center(h);
+      // "does not reach a pole": same margin as the other classes
+      if l.vertices(h).iter().all(|v| v.1.abs() < PI / 2.0 - 0.05) {
+        verts = l.vertices(h).to_vec();
+        centre = c; rho = verts.iter().map(|v| hav(*v, c)).fold(0.0, f64::max) * (1.0 + 1e-9);
+        class = "cell-vertices"; convex = true;
+      }
+    }
+    _ => {}
+  }
   if rng.chance(0.5) { verts.reverse(); }
   PolyIn { depth, verts, centre, rho, convex, class }
 }
@@ -70,6 +103,17 @@ pub fn poly_case(out: &mut Out, rng: &mut Rng, p: &PolyIn, exact: bool) {
   if std::env::var("HPX_TRACE").is_ok() { eprintln!("TRACE polygon depth={} exact={} rho={} verts={:?}", p.depth, exact, p.rho, p.verts); }
   let res = catch(|| l.polygon_coverage(&p.verts, exact));
   if std::env::var("HPX_TRACE").is_ok() { eprintln!("TRACE done coverage"); }
+  if !exact {
+    // the bounding cone that selects the start cells (private in the crate: through the verification hook)
+    let bc = catch(|| cdshealpix::verif_hooks::polygon_bounding_cone(&p.verts));
+    let mut rq = format!("bcone {}", p.verts.len());
+    for v in &p.verts { rq.push_str(&format!(" {} {}", fbits(v.0), fbits(v.1))); }
+    out.rec(&rq, &match bc { Some((a, b, c)) => format!("{} {} {}", fbits(a), fbits(b), fbits(c)), None => "panic".into() });
+    // and it is a bounding cone: every vertex within its radius (to rounding)
+    if let Some((a, b, c)) = bc {
+      for v in &p.verts { if hav(*v, (a, b)) > c * (1.0 + 1e-9) + 1e-15 { out.violation("C12:bounding-cone", format!("vertices={:?}", p.verts), format!("vertex {:?} within the radius {:e}", v, c), format!("{:e}", hav(*v, (a, b)))); break; } }
+    }
+  }
   let mut req = format!("polygon {} {}", p.depth, p.verts.len());
   for v in &p.verts { req.push_str(&format!(" {} {}", fbits(v.0), fbits(v.1))); }
   out.evaluations += 1;
@@ -77,7 +121,8 @@ pub fn poly_case(out: &mut Out, rng: &mut Rng, p: &PolyIn, exact: bool) {
   let inp = format!("depth={} exact={} convex={} centre=({}, {}) rho={:e} vertices={:?}", p.depth, exact, p.convex, p.centre.0, p.centre.1, p.rho, p.verts);
   let m = match res {
     None => { if !exact { out.rec(&req, "panic"); } let tag = if cfg!(debug_assertions) { ":debug" } else { "" };
-      out.violation(&format!("C12:panic{}:{}", tag, last_panic_site()), inp, "a BMOC".into(), "panic".into()); return; }
+      let tiny = if p.rho < 1e-7 { ":polygon-below-1e-7-rad" } else { "" };
+      out.violation(&format!("C12:panic{}:{}{}", tag, last_panic_site(), tiny), inp, "a BMOC".into(), "panic".into()); return; }
     Some(m) => { if !exact { out.rec(&req, &bmoc_line(&m)); } m }
   };
   if let Err(e) = wf_raw(m.get_depth_max(), &m.entries) { out.violation("C12:not-wf", inp, "well-formed BMOC".into(), e); return; }
@@ -111,6 +156,8 @@ pub fn poly_case(out: &mut Out, rng: &mut Rng, p: &PolyIn, exact: bool) {
       for _ in 0..24 {
         let q = if rng.chance(0.7) { dest(p.centre, p.rho * 1.6 * rng.f01().sqrt(), 2.0 * PI * rng.f01()) } else { let z = 2.0 * rng.f01() - 1.0; (rng.f01() * 2.0 * PI, z.asin()) };
         let q = (q.0 - 2.0 * PI * (q.0 / (2.0 * PI)).floor(), q.1);
+        // one point in three shares its longitude bit for bit with a vertex (the boundary case of the lon-range test)
+        let q = if rng.chance(0.33) { let v = p.verts[rng.below(p.verts.len() as u64) as usize]; (v.0, (v.1 + (2.0 * rng.f01() - 1.0) * 2.5 * p.rho).max(-1.5).min(1.5)) } else { q };
         if let Some(want) = inside_convex(p, q, 1e-9) {
           let got = catch(|| poly.contains(&Coo3D::from_sph_coo(q.0, q.1)));
           out.rec(&format!("polycontains {} {} {}{}", fbits(q.0), fbits(q.1), p.verts.len(), p.verts.iter().map(|v| format!(" {} {}", fbits(v.0), fbits(v.1))).collect::<String>()), &match got { Some(b) => (b as u8).to_string(), None => "panic".into() });
@@ -198,6 +245,21 @@ pub fn run_c13(out: &mut Out, rng: &mut Rng, thorough: bool) {
     let b = match rng.below(4) { 0 => a, 1 => a * rng.f01().max(1e-3), 2 => a * 10f64.powf(-3.0 * rng.f01()), _ => a * (0.5 + 0.5 * rng.f01()) };
     let pa = rng.f01() * PI;
     let lon = if rng.chance(0.85) { p.lon - 2.0 * PI * (p.lon / (2.0 * PI)).floor() } else { p.lon };
+    // the guard is tested at depths 0..2 with delta_depth 0 only: if it were missing the answer would still be small
+    let (depth, dd) = if a >= PI / 2.0 * (1.0 - 1e-9) { (depth % 3, 0) } else { (depth, dd) };
+    // one ellipse in eight is centred bit for bit on a cell centre of the layer (or of the deeper layer) with b well
+    // below the cell size: the branch of overlap_cone where the projected centre is (0, 0)
+    if a < PI / 2.0 && rng.chance(0.125) {
+      let l = get_or_create(depth + if rng.chance(0.3) { dd } else { 0 });
+      if p.lat.abs() <= PI / 2.0 {
+        let c = l.center(l.hash(lon.rem_euclid(2.0 * PI), p.lat));
+        let cell = 1.0 / (1u64 << depth) as f64;
+        let a2 = if rng.chance(0.6) { cell * (0.02 + 0.4 * rng.f01()) } else { a };
+        let b2 = a2 * *rng.pick(&[1.0, 0.5, 0.1, 1e-2, 1e-3]);
+        ell_case(out, rng, depth, dd, c.0, c.1, a2, b2.max(1e-12), pa, "centre-on-a-cell-centre");
+        continue;
+      }
+    }
     ell_case(out, rng, depth, dd, lon, p.lat, a, b.max(1e-12), pa, class);
   }
 }
